@@ -68,11 +68,31 @@ pass_context function.  Reached along the same obtain x wrapper x site grammar;
 the flag-free twin of the construction must run; then: refused (0 invocations,
 SecurityError) iff unsafe_callable is True or alters_data is True on the object
 the template calls, otherwise invoked without SecurityError.
+
+Sixth part, *callables implemented in C*: the callable an overridden policy
+rejects cannot carry any marker: builtin functions (len, sorted, repr, next,
+getattr, setattr, operator.setitem), bound builtin methods (alist.append /
+extend / insert, adict.setdefault / update, aset.add, deque.append /
+appendleft, dict.fromkeys, '-'.join), method descriptors (list.append,
+dict.update, str.join), slot wrappers (list.__iadd__, object.__str__), method
+wrappers (alist.__iadd__, adict.__setitem__), functools.partial objects (of a
+builtin method, of a builtin function, of a recording Python function),
+classes implemented in C (deque, list, dict, frozenset, zip, map),
+operator.methodcaller / itemgetter / attrgetter objects (tables in
+vt/gen/c18_ccall.py).  Invocation is observed from the harness: the container
+the method belongs to really changed, or the recording Python object handed in
+as the argument had its protocol method run.  Policies: deny-list of qualified
+names, type ban on everything implemented in C, allow-list of Python-level
+callables plus named builtins.  Same obtain x wrapper x site grammar; the twin
+render (policy not armed) must run the callable, the armed render must give
+zero observed invocations and SecurityError.
 """
 from __future__ import annotations
 
 import functools
 import json
+
+from vt.gen import c18_ccall as CC
 
 PID = "C18"
 LEVEL = "exploration"
@@ -81,7 +101,9 @@ TECHNIQUE = ("recording unsafe callables with an unmarked control twin over a co
              "placements, judged in both directions); "
              "state-model monitor over multi-step mark/policy histories on one environment; the same "
              "twin oracle over names resolved by engine helpers (i18n `_` alias, trans tag) and shadowed "
-             "builtin/special names in environments with extensions loaded")
+             "builtin/special names in environments with extensions loaded; the same twin oracle over "
+             "C-implemented callables (observed through container side effects / recording arguments) "
+             "under deny-list, type-ban and allow-list overrides of is_safe_callable")
 RULE = ("case = (obtain form x alias wrapper x call site x argument form x callable kind x mark "
         "x environment kind x sync/async x extension set [do only / i18n+do+loopcontrols+debug with "
         "gettext callables absent, old-style, new-style]); base coverage enumerates every (site, kind, mark) and "
@@ -119,8 +141,17 @@ RULE = ("case = (obtain form x alias wrapper x call site x argument form x calla
         "x arguments x environment kind x sync/async x extension set): every (placement, combination) row "
         "with 6 (thorough: all 62) rotating sites plus seeded sampling; counted only when the flag-free twin "
         "of the same construction is invoked; both directions judged (a true flag refuses, false/absent "
-        "flags do not)")
-LEVEL_TEXT = ("flag combinations: on every reached (placement, unsafe_callable, alters_data) row the call was "
+        "flags do not); C-level cases = (C-implemented callable kind [36: bound builtin methods, builtin "
+        "functions, method descriptors, slot wrappers, method wrappers, functools.partial objects, C "
+        "classes, operator objects] x policy [deny_name, deny_c_level, allow_python_level] x obtain x "
+        "wrapper x site x argument form [plain, *list] x base class [sandbox, immutable] x sync/async): "
+        "every (site, kind) once with rotating policy / obtain / wrapper (quick: non-print sites by seed "
+        "parity) and every (obtain, wrapper, policy) at the print site, plus seeded sampling; counted only "
+        "when the same template with the policy not armed is OBSERVED to run the callable and the armed "
+        "policy rejects the target when asked directly")
+LEVEL_TEXT = ("C-level callables: 0 observed invocations and SecurityError on every reached (kind, policy, "
+              "path) case of a C-implemented callable an overridden policy rejects; "
+              "flag combinations: on every reached (placement, unsafe_callable, alters_data) row the call was "
               "refused iff one of the two attributes is True; "
               "resolved names: 0 invocations and SecurityError on every reached (name, binding, use) row "
               "with the i18n/do/loopcontrols/debug extensions loaded; "
@@ -134,7 +165,8 @@ ASSUMPTIONS = [
     "callables are invoked by call syntax written in the template (or call blocks); engine-internal calls of data objects' protocol methods are out of scope",
     "marks: jinja2.sandbox.unsafe, alters_data=True, and an is_safe_callable override that rejects objects carrying vt_forbidden and defers to super() otherwise",
     "histories: the override additionally rejects objects (or bound receivers) carrying vt_frozen and objects whose vt_name is in the environment's deny-list; marks are set on and removed from the object the template calls (function, instance, partial, class) or the function/class shared by both siblings; the unsafe mark is removed by deleting the attribute(s) jinja2.sandbox.unsafe was observed to add",
-    "builtin-method policies: builtin methods cannot record their invocation, so the observation is the documented outcome (SecurityError from render) under a policy that rejects the method, given that the structural twin of the template (context variable in place of the literal) evaluates the call under a policy that admits it",
+    "builtin-method policies: builtin methods cannot record their invocation, so the observation is the documented outcome (SecurityError from render) under a policy that rejects the method, given that the structural twin of the template (context variable in place of the literal) evaluates the call under a policy that admits it (the policy subclass also overrides the public SandboxedEnvironment.call to record which methods the generated code hands over: the reach decision does not depend on is_safe_callable being consulted)",
+    "C-level callables: invocation is observed through effects visible from the harness (growth of the container a bound method belongs to, a counter on the recording Python object passed as the argument); callables without such an effect (os.getcwd ...) are not generated; the recording object's protocol methods are run by nothing but the target call (it appears in the template only as that call's argument); under the type-ban and allow-list policies a template that itself calls a C-level builtin (range, dict.items ...) before the target is refused there, which satisfies the oracle and is counted apart (ccall_target_rejected_by_override counts the cases where the override was asked about the target itself)",
     "resolved names: a call the engine makes because the template wrote `_(...)` or a trans block counts as a call written in the template (`_` is documented as the alias of gettext and trans as calling gettext/ngettext/pgettext/npgettext); the callable is bound to the name by the template, the render data or env.globals. Translation callables the application registers through install_gettext_callables / install_null_translations are application hooks and are never marked",
     "flag combinations: the attribute values are the booleans True / False or the attribute is absent (other truthy values are not generated); 'on the object the template calls' means ordinary attribute lookup on that object (instance, then class, then base classes; a bound method shows the attributes of its function), which is how both documented markers (the unsafe decorator, func.alters_data = True) are written; attributes set only on the __call__ function of a callable object are not generated",
     "extensions other than i18n, do, loopcontrols and debug are not loaded; only the resolved-name part runs with more than the do extension",
@@ -164,7 +196,16 @@ FLOORS = {
                            "extension_env_cases": 1000,
                            "flag_cases": 270, "flag_security_errors": 180, "flag_allowed_calls": 90,
                            "flag_both_attributes_present_cases": 170,
-                           "flag_one_false_other_true_cases": 85, "flag_async_cases": 75}},
+                           "flag_one_false_other_true_cases": 85, "flag_async_cases": 75,
+                           "ccall_cases": 600, "ccall_security_errors": 600,
+                           "ccall_target_rejected_by_override": 550, "ccall_async_cases": 170,
+                           "ccall_controls_ok": 12,
+                           "ccall_group:bound_builtin_method": 170, "ccall_group:builtin_function": 120,
+                           "ccall_group:c_class": 100, "ccall_group:method_descriptor": 50,
+                           "ccall_group:method_wrapper": 30, "ccall_group:operator_object": 50,
+                           "ccall_group:partial": 50, "ccall_group:slot_wrapper": 30,
+                           "ccall_policy:deny_name": 200, "ccall_policy:deny_c_level": 200,
+                           "ccall_policy:allow_python_level": 200}},
     "thorough": {"evaluations": 60000, "distinct": 30000,
                  "counters": {"twin_invocations": 30000, "marked_renders": 30000,
                               "security_errors": 30000, "async_cases": 8000,
@@ -187,7 +228,17 @@ FLOORS = {
                               "flag_cases": 5400, "flag_security_errors": 3500,
                               "flag_allowed_calls": 1850,
                               "flag_both_attributes_present_cases": 3300,
-                              "flag_one_false_other_true_cases": 1700, "flag_async_cases": 1600}},
+                              "flag_one_false_other_true_cases": 1700, "flag_async_cases": 1600,
+                              "ccall_cases": 4000, "ccall_security_errors": 4000,
+                              "ccall_target_rejected_by_override": 3600, "ccall_async_cases": 1000,
+                              "ccall_controls_ok": 12,
+                              "ccall_group:bound_builtin_method": 1000,
+                              "ccall_group:builtin_function": 700,
+                              "ccall_group:c_class": 600, "ccall_group:method_descriptor": 300,
+                              "ccall_group:method_wrapper": 200, "ccall_group:operator_object": 300,
+                              "ccall_group:partial": 300, "ccall_group:slot_wrapper": 200,
+                              "ccall_policy:deny_name": 1200, "ccall_policy:deny_c_level": 1200,
+                              "ccall_policy:allow_python_level": 1200}},
 }
 
 # ------------------------------------------------------------------ grammar
@@ -279,7 +330,7 @@ SITES = {
     "macro_call_kwarg": "{% macro m(a=1) %}{{ a }}{% endmacro %}{{ m(a=@@) }}",
     "call_block_body": "{% macro m() %}[{{ caller() }}]{% endmacro %}{% call m() %}{{ @@ }}{% endcall %}",
     "call_block_macro_arg": "{% macro m(a) %}{{ a }}{{ caller() }}{% endmacro %}{% call m(@@) %}b{% endcall %}",
-    "caller_with_param": "{% macro m() %}{{ caller(1) }}{% endmacro %}{% call(v) m() %}{{ @@ }}{% endcall %}",
+    "caller_with_param": "{% macro m() %}{{ caller(1) }}{% endmacro %}{% call(cq) m() %}{{ @@ }}{% endcall %}",
     "call_block_target": "{% call ^^(ARGS) %}body{% endcall %}",
     "call_block_target_params": "{% call(v) ^^(ARGS) %}{{ v }}{% endcall %}",
     "filter_block": "{% filter upper %}{{ @@ }}{% endfilter %}",
@@ -1305,9 +1356,18 @@ def bm_env(is_async, optimized):
                         return False
                 return super().is_safe_callable(obj)
 
+            def call(__self, __context, __obj, *args, **kwargs):  # noqa: B902
+                # harness-side record of the calls the generated code makes (reach
+                # oracle: must not depend on the safety check under test)
+                if isinstance(__obj, types.BuiltinMethodType) and \
+                        isinstance(getattr(__obj, "__self__", None), BM_TYPES):
+                    __self.vt_called.append(__obj.__name__)
+                return super().call(__context, __obj, *args, **kwargs)
+
         env = PolicyEnv(enable_async=is_async, extensions=["jinja2.ext.do"], cache_size=0,
                         optimized=optimized)
         env.vt_consulted = []
+        env.vt_called = []
         env.globals["ident"] = lambda x: x
         _bm_envs[key] = env
     return env
@@ -1356,6 +1416,7 @@ def bm_render(case, source, templates, policy, names):
     env.loader = DictLoader(dict(templates))
     env.vt_policy, env.vt_names = policy, names
     env.vt_consulted = consulted = []
+    env.vt_called = []
     value = ast.literal_eval(lit)
 
     class H:
@@ -1378,8 +1439,9 @@ _bm_reach = {}
 def bm_reached(case):
     """Does this template evaluate its call expression?  Decided on its twin
     with the receiver taken from the context (the variable v written in place
-    of the literal) and the method admitted: no exception and the override was
-    consulted for the method."""
+    of the literal) and the method admitted: no exception and the method was
+    handed to environment.call (recorded by the subclass's call override) or the
+    override was consulted for it."""
     key = json.dumps([case[k] for k in ("site", "method", "recv", "access", "argform", "async")]
                      + [case.get("optimized", True)])
     r = _bm_reach.get(key)
@@ -1388,7 +1450,11 @@ def bm_reached(case):
         source, templates = bm_compose(case, var_twin=True)
         out, exc, consulted = bm_render(case, source, templates, "allow_list",
                                         bm_names("allow_list", typ, method, True))
-        r = _bm_reach[key] = exc is None and method in consulted
+        # (reached = the generated code hands the method to environment.call; the
+        # consult of the override is what the property demands, not a precondition)
+        r = _bm_reach[key] = exc is None and (method in consulted or
+                                              method in bm_env(case["async"],
+                                                               case.get("optimized", True)).vt_called)
     return r
 
 
@@ -1978,6 +2044,176 @@ def flag_random_case(rng):
             return c
 
 
+# ------------------------------------------------- C-implemented callables
+# Sixth part: the callable the overridden policy rejects is implemented in C
+# (tables, policies and harness-side observations in vt/gen/c18_ccall.py).  Same
+# obtain x wrapper x site grammar; twin render = policy not armed (the callable
+# must run: observed through its side effect / the recording argument), marked
+# render = policy armed: zero invocations and SecurityError.
+_cc_envs = {}
+
+
+def cc_env(base, is_async, templates):
+    from jinja2 import DictLoader
+    from jinja2.sandbox import ImmutableSandboxedEnvironment, SandboxedEnvironment
+
+    key = (base, is_async)
+    env = _cc_envs.get(key)
+    if env is None:
+        cls = CC.make_env_class(ImmutableSandboxedEnvironment if base == "immutable"
+                                else SandboxedEnvironment)
+        env = cls(enable_async=is_async, extensions=["jinja2.ext.do"], cache_size=0)
+        env.globals["ident"] = lambda x: x
+
+        async def agen(x):
+            yield x
+        env.globals["agen"] = agen
+        _cc_envs[key] = env
+    env.loader = DictLoader(dict(templates))
+    return env
+
+
+def cc_compose(case, args):
+    a = args if case["argform"] == "plain" or not args else f"*[{args}]"
+    return compose(dict(case, args=a))
+
+
+def cc_render(case, armed):
+    from jinja2.exceptions import SecurityError
+
+    f, args, extra, probe = CC.build(case["kind"])
+    source, templates = cc_compose(case, args)
+    env = cc_env(case["env"], case["async"], templates)
+
+    class Holder:
+        pass
+    o = Holder()
+    o.m = f
+    data = {"f": f, "o": o, "d": {"f": f, "k": {"g": f}}, "l": [f], "t": (f,),
+            "nested": [{"f": [f]}]}
+    data.update(extra)
+    if armed:
+        CC.arm(env, case["policy"], f)
+        admits_target = env.is_safe_callable(f)
+        env.vt_rejected = []
+    else:
+        CC.disarm(env)
+        admits_target = True
+    try:
+        out = env.from_string(source).render(**data)
+        exc = None
+    except SecurityError as e:
+        out, exc = None, ("SecurityError", str(e)[:200])
+    except Exception as e:
+        out, exc = None, (type(e).__name__, str(e)[:200])
+    finally:
+        rejected = list(env.vt_rejected)
+        CC.disarm(env)
+    target_rejected = any(CC.same_callable(r, f) for r in rejected)
+    return probe(), out, exc, source, templates, admits_target, target_rejected
+
+
+def run_ccall_case(ctx, case, count=True):
+    calls, out, exc, source, templates, _, _ = cc_render(case, armed=False)
+    if count:
+        ctx.ev()
+        ctx.count("ccall_twin_renders")
+    if exc is not None and exc[0] == "SecurityError":
+        if count:
+            ctx.count("ccall_twin_security_error")
+        return False
+    if calls <= 0:
+        if count:
+            ctx.count("ccall_unreached")
+        return False
+    mcalls, mout, mexc, _, _, admits, target_rejected = cc_render(case, armed=True)
+    if admits:
+        # (the policy of this case does not reject the target at all: nothing to check)
+        if count:
+            ctx.count("ccall_policy_admits_target")
+        return False
+    group = CC.group_of(case["kind"])
+    if count:
+        ctx.ev()
+        ctx.count("ccall_cases")
+        ctx.count("ccall_group:" + group)
+        ctx.count("ccall_policy:" + case["policy"])
+        ctx.count("ccall_site:" + case["site"])
+        if case["async"]:
+            ctx.count("ccall_async_cases")
+        if target_rejected:
+            ctx.count("ccall_target_rejected_by_override")
+        ctx.dist(["cc"] + [case[k] for k in ("obtain", "wrap", "site", "argform", "kind", "policy",
+                                              "env", "async")])
+    full = dict(case, cc=True, source=source, templates=templates)
+    mech = f"site={case['site']}:wrap={case['wrap']}:kind=c-level/{group}:mark=override-{case['policy']}"
+    where = (f"{case['kind']} under an is_safe_callable override ({case['policy']}, env {case['env']}, "
+             f"async={case['async']}) that rejects it")
+    if mcalls > 0:
+        ctx.violation("invoked:" + mech,
+                      f"{where} was invoked by {source!r} {templates or ''} (observed effect count "
+                      f"{mcalls}); render outcome: {mexc or mout!r}", full)
+    elif mexc is None or mexc[0] != "SecurityError":
+        ctx.violation("no-security-error:" + mech,
+                      f"{where}: without the policy the call runs, with it the render of {source!r} "
+                      f"{templates or ''} gave {mexc or mout!r} instead of SecurityError", full)
+    elif count:
+        ctx.count("ccall_security_errors")
+    return True
+
+
+def ccall_core_cases():
+    """every (site, kind) once with rotating policy / obtain / wrapper, every
+    (obtain, wrapper, policy) at the print site with rotating kind"""
+    out = []
+    i = 0
+    obt, wraps = list(OBTAIN), [w for w in WRAP if w != "aloop"]
+    for site in SITES:
+        for kind in CC.KINDS:
+            i += 1
+            out.append({"obtain": obt[i % len(obt)] if i % 3 == 0 else "name",
+                        "wrap": wraps[(i // 3) % len(wraps)] if i % 3 == 1 else "none",
+                        "site": site, "kind": kind, "policy": CC.POLICIES[i % 3],
+                        "argform": "star" if i % 5 == 0 else "plain",
+                        "env": "immutable" if i % 7 == 0 else "sandbox", "async": i % 4 == 0})
+    for ob in OBTAIN:
+        for wr in WRAP:
+            for policy in CC.POLICIES:
+                i += 1
+                out.append({"obtain": ob, "wrap": wr, "site": "print",
+                            "kind": CC.KINDS[i % len(CC.KINDS)], "policy": policy,
+                            "argform": "star" if i % 5 == 0 else "plain",
+                            "env": "immutable" if i % 7 == 0 else "sandbox",
+                            "async": wr == "aloop" or i % 4 == 0})
+    return out
+
+
+def ccall_random_case(rng):
+    while True:
+        c = {"obtain": rng.choice(list(OBTAIN)), "wrap": rng.choice(list(WRAP)),
+             "site": rng.choice(list(SITES)), "kind": rng.choice(CC.KINDS),
+             "policy": rng.choice(CC.POLICIES), "argform": rng.choice(["plain", "plain", "star"]),
+             "env": rng.choice(["sandbox", "sandbox", "immutable"]), "async": rng.random() < 0.3}
+        if c["wrap"] != "aloop" or c["async"]:
+            return c
+
+
+def ccall_control(ctx):
+    """Self-test of the observations: in an environment whose policy is not armed
+    every C-level kind, called at the print site, is observed to run."""
+    bad = []
+    for kind in CC.KINDS:
+        case = {"obtain": "name", "wrap": "none", "site": "print", "kind": kind,
+                "policy": "deny_name", "argform": "plain", "env": "sandbox", "async": False}
+        calls, out, exc, source, _, _, _ = cc_render(case, armed=False)
+        if calls <= 0:
+            bad.append(f"{kind}: {source!r} -> {exc or out!r}, observed {calls}")
+    if bad:
+        ctx.inconc("C-level callable self-test failed: " + "; ".join(bad[:4]))
+    else:
+        ctx.count("ccall_controls_ok")
+
+
 def run(ctx):
     import warnings
 
@@ -2041,6 +2277,23 @@ def run(ctx):
             ctx.sample(spec)
         i += 1
     ctx.count("history_random", i)
+    # C-implemented callables under overridden policies (after the time-boxed histories)
+    ccall_control(ctx)
+    ncc = 0
+    for i, case in enumerate(ccall_core_cases()):
+        if not ctx.mine(i):
+            continue
+        if quick and case["site"] != "print" and (i // ctx.nshards) % 2 != ctx.seed % 2:
+            # quick: half of the site x kind core per seed parity
+            continue
+        if run_ccall_case(ctx, case):
+            ncc += 1
+            if ncc == 1 and ctx.shard in (11, 12):
+                ctx.sample(dict(case, source=cc_compose(case, CC.build(case["kind"])[1])[0]))
+    rng = ctx.rng("ccrand")
+    for _ in range(40 if quick else 800):
+        run_ccall_case(ctx, ccall_random_case(rng))
+    ctx.count("ccall_core_cases", ncc)
     # names the engine resolves itself / shadowed builtin names, extensions loaded
     nhelp = 0
     hs = 0
@@ -2110,5 +2363,7 @@ def replay(ctx, case):
         run_flag_case(ctx, case, count=False)
     elif case.get("bm"):
         run_bm_case(ctx, case, count=False)
+    elif case.get("cc"):
+        run_ccall_case(ctx, case, count=False)
     else:
         run_case(ctx, case, count=False)
